@@ -22,7 +22,8 @@ pub fn sorted_vars(t: &CT) -> (Vec<String>, Vec<usize>) {
 }
 
 pub fn gen_point(t: &mut Tape, n: usize) -> Vec<f64> {
-    let style = t.choose(4);
+    // signed points (style 2) for two cases in five: sign errors only show at negative arguments
+    let style = t.weighted(&[3, 1, 4, 2]);
     (0..n)
         .map(|_| match style {
             0 => 0.3 + t.unit_f64() * 2.0,
